@@ -151,7 +151,8 @@ impl<'tcx> Cx<'tcx> {
                     let _ = write!(extra, ",\"bits\":\"{}\",\"size\":{}", int.to_bits_unchecked(), int.size().bytes());
                 }
             }
-            let _ = write!(extra, ",\"uneval\":{},\"promoted\":{}", js(&self.tcx.def_path_str(uv.def)), uv.promoted.map(|p| p.as_usize() as i64).unwrap_or(-1));
+            let _ = write!(extra, ",\"uneval\":{},\"promoted\":{},\"udid\":{}", js(&self.tcx.def_path_str(uv.def)), uv.promoted.map(|p| p.as_usize() as i64).unwrap_or(-1),
+                if uv.def.is_local() { uv.def.index.as_u32() as i64 } else { -1 });
         }
         format!("{{\"ty\":{},\"d\":{}{}}}", js(&format!("{}", ty)), js(&format!("{}", c)), extra)
     }
@@ -219,8 +220,8 @@ impl<'tcx> Cx<'tcx> {
     fn body(&self, did: DefId, body: &Body<'tcx>, promoted: Option<usize>) -> String {
         let tcx = self.tcx;
         let mut o = String::new();
-        let _ = write!(o, "{{\"path\":{},\"promoted\":{},\"kind\":{},\"span\":{},\"arg_count\":{}",
-            js(&tcx.def_path_str(did)), promoted.map(|p| p as i64).unwrap_or(-1), js(&format!("{:?}", tcx.def_kind(did))), self.span(body.span), body.arg_count);
+        let _ = write!(o, "{{\"did\":{},\"path\":{},\"promoted\":{},\"kind\":{},\"span\":{},\"arg_count\":{}",
+            did.index.as_u32(), js(&tcx.def_path_str(did)), promoted.map(|p| p as i64).unwrap_or(-1), js(&format!("{:?}", tcx.def_kind(did))), self.span(body.span), body.arg_count);
         // parent (for closures: the enclosing fn), generics
         let parent = tcx.opt_parent(did).map(|p| tcx.def_path_str(p));
         let _ = write!(o, ",\"parent\":{}", parent.map(|p| js(&p)).unwrap_or("null".into()));
@@ -360,6 +361,16 @@ fn ty_facts<'tcx>(tcx: TyCtxt<'tcx>, out: &mut Vec<String>) {
                 if let Some(tr) = tcx.impl_opt_trait_ref(did) {
                     let tr = tr.instantiate_identity().skip_norm_wip();
                     out.push(format!("{{\"fact\":\"impl\",\"trait\":{},\"self\":{},\"derived\":{},\"unsafe\":{}}}", js(&tcx.def_path_str(tr.def_id)), js(&format!("{}", tr.self_ty())), tcx.is_automatically_derived(did), tcx.impl_trait_header(did).safety.is_unsafe()));
+                }
+            }
+            DefKind::Const { .. } | DefKind::AssocConst { .. } => {
+                // evaluated value of non-generic constants, pretty-printed (tables of constants as data)
+                let ty: Ty<'tcx> = tcx.type_of(did).instantiate_identity().skip_norm_wip();
+                if !ty.has_param() && tcx.generics_of(did).count() == 0 {
+                    if let Ok(val) = tcx.const_eval_poly(did) {
+                        let c = Const::Val(val, ty);
+                        out.push(format!("{{\"fact\":\"constval\",\"path\":{},\"ty\":{},\"value\":{}}}", js(&tcx.def_path_str(did)), js(&format!("{}", ty)), js(&format!("{}", c))));
+                    }
                 }
             }
             DefKind::Fn | DefKind::AssocFn => {
